@@ -371,6 +371,49 @@ func c20ResolutionSet(c *vlib.Ctx, idx int64) {
 			}
 		}
 	}
+	// flipPatterns changes which candidate entries exist (pattern p becomes (7p+3+idx) mod 16), in the
+	// reference and, through apply, in the store; restoreTpls puts the reference back (the store it was
+	// applied to is not used afterwards)
+	var savedTpls map[string][]tplPart
+	flipPatterns := func(apply func(pcomp string, cd cand, add bool, text string)) {
+		savedTpls = map[string][]tplPart{}
+		for k, v := range tpls {
+			savedTpls[k] = v
+		}
+		for pattern := 0; pattern < 16; pattern++ {
+			pcomp := fmt.Sprintf("%s-p%d", comp, pattern)
+			np := (pattern*7 + 3 + int(idx)) % 16
+			seen := map[string]bool{}
+			for ci, cd := range cands {
+				k := pcomp + "|" + cd.rt + "|" + cd.role
+				if seen[k] {
+					continue // coinciding candidates: the first one decides
+				}
+				seen[k] = true
+				_, had := tpls[k]
+				want := np&(1<<ci) != 0
+				switch {
+				case had && !want:
+					delete(tpls, k)
+					apply(pcomp, cd, false, "")
+					c.Count("entries_removed_under_live_service", 1)
+				case !had && want:
+					parts := []tplPart{{Lit: fmt.Sprintf("added-later[%s/%s/%s]", pcomp, cd.rt, cd.role)}}
+					tpls[k] = parts
+					apply(pcomp, cd, true, tplText(parts))
+					c.Count("entries_added_under_live_service", 1)
+				}
+			}
+		}
+	}
+	restoreTpls := func() {
+		for k := range tpls {
+			delete(tpls, k)
+		}
+		for k, v := range savedTpls {
+			tpls[k] = v
+		}
+	}
 	runPatterns(svc, "file")
 
 	// the entry's content changes in the store and the template cache is invalidated: the next processed
@@ -437,6 +480,22 @@ func c20ResolutionSet(c *vlib.Ctx, idx int64) {
 		}
 		c.Count("resolution_sets_on_consul_backend", 1)
 		runPatterns(csvc, "consul")
+		// another client edits the store while this service lives on: entries appear and disappear; every
+		// later query must be resolved against the store as it is now
+		if idx%4 == 0 {
+			flipPatterns(func(pcomp string, cd cand, add bool, text string) {
+				key := "o2/components/" + pcomp + "/" + cd.rt + "/" + cd.role + "/" + entryPath
+				if add {
+					cs.Put(key, text)
+				} else {
+					cs.Delete(key)
+				}
+			})
+			csvc.InvalidateComponentTemplateCache()
+			c.Count("resolution_sets_after_store_change", 1)
+			runPatterns(csvc, "consul, entries added and removed under a live service")
+			restoreTpls()
+		}
 	}
 
 	// concurrent lookups on ONE service (apricot serves its clients concurrently): every result must
@@ -489,6 +548,42 @@ func c20ResolutionSet(c *vlib.Ctx, idx int64) {
 			}(g)
 		}
 		wg.Wait()
+	}
+
+	// the backend file is edited (entries appear and disappear) while the service lives on
+	if idx%4 == 3 {
+		delEntry := func(compMap map[string]interface{}, crt, crole string) {
+			rtm, _ := compMap[crt].(map[string]interface{})
+			rm, _ := rtm[crole].(map[string]interface{})
+			if rm == nil {
+				return
+			}
+			if nested {
+				if sm, _ := rm[sub].(map[string]interface{}); sm != nil {
+					delete(sm, entry)
+					if len(sm) == 0 {
+						delete(rm, sub)
+					}
+				}
+			} else {
+				delete(rm, entry)
+			}
+		}
+		flipPatterns(func(pcomp string, cd cand, add bool, text string) {
+			cm := comps[pcomp].(map[string]interface{})
+			if add {
+				putEntry(cm, cd.rt, cd.role, entry, text)
+			} else {
+				delEntry(cm, cd.rt, cd.role)
+			}
+		})
+		b3, _ := json.Marshal(root)
+		if werr := os.WriteFile(path, b3, 0o644); werr == nil {
+			svc.InvalidateComponentTemplateCache()
+			c.Count("resolution_sets_after_store_change", 1)
+			runPatterns(svc, "file, entries added and removed under a live service")
+		}
+		restoreTpls()
 	}
 }
 
